@@ -85,5 +85,56 @@ PROPS["C13"] = {
     "trusted_base": ["strings.Contains", "regexp on the content type for filters outside the literal-alternation subset (the generator stays inside it)"],
 }
 
+_SCHED_RULE = ("sched: random schedules executed on REAL goroutines through the real middleware chain, one atomic step at a time: the "
+               "controller releases exactly one gate (hook points before each lock acquisition, after the waiter list is detached, after "
+               "the drain, around the channel receive; the scripted upstream) per event and records where the goroutine stops next. 2-6 "
+               "requests on 1-2 keys (8% POST), clock ticks of 1-3 s or 300 s between any two steps, upstream outcomes cacheable(ttl 1/2/3/60)/"
+               "no-store/error/panic, hit-for-pass period 300s/2s/unset, with or without a store whose loads are honest/error/mutated records "
+               "(status word, no expiry, no response, truncated, junk), failing saves and deletes, purges, restarts. The Lean driver replays "
+               "each event through Sys.step and compares positions, entry identities, store consultation and final answers (X-Status, Age, "
+               "body, code). non-trivial = every event line except ticks; distinct = distinct lines.")
+_SYS_TRUSTED = ["Go runtime: sync.Mutex/RWMutex and unbuffered channel semantics, the scheduler (the model's atomic steps are the lock-protected blocks; tied by the sched suite and the extracted lock table)",
+                "elton middleware chain and context", "the wall clock is monotone (whole seconds)"]
+PROPS["C01"] = {
+    "suites": [{"name": "sched", "stateful": True, "quick": 1500, "thorough": 30000, "thorough_seeds": 4}],
+    "trip_re": "overlap|waiter_not_served",
+    "rule": _SCHED_RULE, "assumptions": ["Sys abstracts from int64 wrap-around of createdAt+ttl (covered at entry level, C04.overflow_never_served)"],
+    "trusted_base": _SYS_TRUSTED,
+}
+PROPS["C02"] = {
+    "suites": [{"name": "sched", "stateful": True, "quick": 1500, "thorough": 30000, "thorough_seeds": 4}],
+    "trip_re": "blocked",
+    "rule": _SCHED_RULE + " A goroutine that does not reach its next stop within 5 s, or is not finished when the schedule has been wound down, trips 'blocked'.",
+    "assumptions": ["every upstream request ends (the property conditions on it; the proxy timeout converts a silent upstream into 504)",
+                    "store calls made under a mutex return"],
+    "trusted_base": _SYS_TRUSTED,
+}
+PROPS["C04"] = {
+    "suites": [{"name": "sched", "stateful": True, "quick": 1500, "thorough": 30000, "thorough_seeds": 4}],
+    "trip_re": "served_stale|age_gt_T.*",
+    "rule": _SCHED_RULE, "assumptions": ["'obtained' = the instant the entry became a hit (createdAt)", "the store never returns data that was not written to it (Honest) for the provenance theorem"],
+    "trusted_base": _SYS_TRUSTED,
+}
+PROPS["C07"] = {
+    "suites": [{"name": "sched", "stateful": True, "quick": 1500, "thorough": 30000, "thorough_seeds": 4}],
+    "trip_re": "queued_during_hfp|hfp_period_wrong",
+    "rule": _SCHED_RULE, "assumptions": [], "trusted_base": _SYS_TRUSTED + ["time.ParseDuration for the configured period"],
+}
+PROPS["C10"] = {
+    "suites": [{"name": "sched", "stateful": True, "quick": 1500, "thorough": 30000, "thorough_seeds": 4}],
+    "trip_re": "blocked|immortal|client_error_from_store_fault",
+    "rule": _SCHED_RULE, "assumptions": ["a structurally valid record whose body bytes were altered is undetectable without a checksum: outside the property as decided here",
+                                          "store calls return (a hanging store is outside the model)"],
+    "trusted_base": _SYS_TRUSTED,
+}
+PROPS["C18"] = {
+    "suites": [{"name": "sched", "stateful": True, "quick": 1000, "thorough": 20000, "thorough_seeds": 3},
+               {"name": "disp", "stateful": True, "quick": 60, "thorough": 600, "thorough_seeds": 3}],
+    "trip_re": "served_from_purged|record_survives|blocked",
+    "rule": _SCHED_RULE + " disp: named / unnamed / unknown-cache purges on two real dispatchers with stores.",
+    "assumptions": ["a fetch in flight at purge time may persist its result afterwards (the property only requires non-blocking there)"],
+    "trusted_base": _SYS_TRUSTED,
+}
+
 NOT_APPLICABLE = {}
 HOOK_COMMITS = ["ca43a57", "6332ff2"]
